@@ -20,7 +20,7 @@ func init() {
 			"glow.Verify(equipment[id].PublicKey, report.SigningBytes(), report.Signature) for the very report value that is passed on; PRED the dominating guards are equivalent to -432 <= ts - now <= 432 evaluated without wrap-around for every 32-bit ts and now " +
 			"(compared cell by cell, including the uint32 extremes) and to PowerOutput not in {0,1}; the storage-window guards of the integrator are equivalent to offset <= ts < offset+4032; PURE the handler has no write effect on server state and no file write outside the integrator call " +
 			"(reject paths leave every observable unchanged); the listener hands over only datagrams of exactly 80 bytes read into an 80-byte buffer; the parser decodes ShortID/Timeslot/PowerOutput/Signature from bytes 0:4, 4:8, 8:16, 16:80 little-endian. " +
-			"COVER EquipmentReport.SigningBytes writes every field of the report except Signature at its full width (a field that is missing or narrowed could be altered under a valid signature). NOT decided: cryptographic strength of secp256k1/Keccak (trusted); 'every observable exactly as it was' is decided as 'no write effect on reject paths', not by observing endpoints; signing-bytes layout is C15's.",
+			"COVER EquipmentReport.SigningBytes writes every field of the report except Signature at its full width (a field that is missing or narrowed could be altered under a valid signature). the device-table rules of C06 (ban test, identical no-op, persist first, conflict deletes exactly one id everywhere, key-set pairing) are re-run, because \"authorized, non-banned\" rests on them. NOT decided: cryptographic strength of secp256k1/Keccak (trusted); 'every observable exactly as it was' is decided as 'no write effect on reject paths', not by observing endpoints; signing-bytes layout is C15's.",
 		Assumptions: append([]string{"glow.Verify(key, data, sig) is true only for a signature by key over data (secp256k1 + Keccak256, trusted)", "glow.CurrentTimeslot() < 2^31"}, baseAssumptions...),
 		Run:         runC01,
 	})
@@ -248,6 +248,8 @@ func runC01(c *an.Ctx) {
 	}
 	parserLayout(c)
 	storageWindow(c, integ)
+	// "authorized, non-banned device": the device tables change only as C06 says (rules re-run)
+	authTableRules(c, "C01")
 }
 
 // authAtIntegratorCall checks the facts at the handler's call of the integrator.
